@@ -1,5 +1,7 @@
 package main
 
+import "unicode"
+
 // A cheap pre-solver for branch conditions over a single symbolic byte.
 //
 // For every 8-bit input variable v the engine keeps dom(v), the set of values allowed by the
@@ -201,6 +203,10 @@ func (e *Engine) evalVec(t *Term, v *Term, memo map[*Term]*[256]uint64) (*[256]u
 					r = uint64(sx%sy) & m
 				}
 			case OApp:
+				if t.Name == "unicode.ToLower" && len(args) == 1 {
+					r = uint64(uint32(unicode.ToLower(rune(int32(uint32(x))))))
+					break
+				}
 				f, ok := uniNative[trimUnicodePrefix(t.Name)]
 				if !ok || len(args) != 1 {
 					return fail()
